@@ -1,16 +1,19 @@
 SPECIFICATION Spec
 CONSTANTS
-  Addrs = {"a", "b", "c"}
+  Addrs = {"a", "b"}
   Callers = {1, 2}
   Policy = "rr"
-  UpdateSets = {{"a", "b"}, {"b", "c"}, {"a", "b", "c"}}
+  UpdateSets = {{"a", "b"}, {"b"}}
+  InitTargets = {"a", "b"}
+  MaxDirector = 0
   MaxUpdates = 1
   MaxFlips = 1
   MaxCalls = 3
   MaxFallbacks = 1
-  Lats = {10, 30}
+  Lats = {10}
   MaxLat = 100
   Dev = {}
+  DevForced = FALSE
 INVARIANTS ListFromTargets ListNoDup CursorInRange RRDistinct LatBounded NoWaitAfterClose WaiterOwed WaitersAreWaiting ErrKinds
 PROPERTIES RouteInTargets RandomInList LeastTimeMinimal ProbeOncePerTick ClosedFailsAtOnce
 CHECK_DEADLOCK FALSE
